@@ -14,7 +14,7 @@ import (
 func init() {
 	register(&Property{
 		ID:          "C09",
-		Explanation: "For every public type that serves requests (http.Handler / utils.ErrorHandler implementations) or owns a mutex, every exported method is taken as a concurrent entry point with the receiver as the shared object. An interprocedural, flow-sensitive must-lockset analysis names locks and memory locations by access paths from the receiver, follows module callees in the caller's context (including goroutines started with `go`, and String() methods reached through %v logging of the receiver), and records every read and write of receiver-reachable state with the locks certainly held. R1: for every location written by some entry point, every conflicting pair of accesses (write/any, from any two entry points or the same one twice) must share a lock that excludes them (mutex, or RWMutex with the write side in exclusive mode; a reader that cleans up, e.g. RollingCounter.Count, is a writer). R2: objects reached through interfaces that are not concurrency-safe by contract (io.Writer, Meter, foreign pointer receivers such as hdrhistogram) count as written by every call. R3: every Lock is released on every path to a return. All call paths are enumerated; nothing is executed. R4: no self-deadlock (a lock operation on a mutex in the must-lockset; String() methods reached through %v formatting included). R5: Clone/Export snapshot methods return a fresh allocation none of whose slice/map/pointer fields (nor container elements) is taken from the receiver, also after a by-value struct copy. R6 (= C03.R6): look-up, creation, re-arming and consumption of a source's bucket set form one critical section of the limiter. R7: an insertion into a map field after a look-up of the key lies on the not-found edge of a look-up made under the same lock acquisition (no unlock in between). R8: a critical section that may call user-supplied code (function values, the module's extension interfaces) is released by a deferred unlock. Root types include the module's implementations of its own extension interfaces and the internal TTL map (exported methods of internal types that are only called from the type's own methods are helpers, decided on the call graph).",
+		Explanation: "For every public type that serves requests (http.Handler / utils.ErrorHandler implementations) or owns a mutex, every exported method is taken as a concurrent entry point with the receiver as the shared object. An interprocedural, flow-sensitive must-lockset analysis names locks and memory locations by access paths from the receiver, follows module callees in the caller's context (including goroutines started with `go`, and String() methods reached through %v logging of the receiver), and records every read and write of receiver-reachable state with the locks certainly held. R1: for every location written by some entry point, every conflicting pair of accesses (write/any, from any two entry points or the same one twice) must share a lock that excludes them (mutex, or RWMutex with the write side in exclusive mode; a reader that cleans up, e.g. RollingCounter.Count, is a writer). R2: objects reached through interfaces that are not concurrency-safe by contract (io.Writer, Meter, foreign pointer receivers such as hdrhistogram) count as written by every call. R3: every Lock is released on every path to a return. All call paths are enumerated; nothing is executed. R4: no self-deadlock (a lock operation on a mutex in the must-lockset; String() methods reached through %v formatting included). R5: Clone/Export snapshot methods return a fresh allocation none of whose slice/map/pointer fields (nor container elements) is taken from the receiver, also after a by-value struct copy. R6 (= C03.R6): look-up, creation, re-arming and consumption of a source's bucket set form one critical section of the limiter. R7: an insertion into a map field after a look-up of the key lies on the not-found edge of a look-up made under the same lock acquisition (no unlock in between). R8: a critical section that may call user-supplied code (function values, the module's extension interfaces) is released by a deferred unlock. Root types include the module's implementations of its own extension interfaces and the internal TTL map (exported methods of internal types that are only called from the type's own methods are helpers, decided on the call graph). R1 also records pointers into the receiver's state that are handed to handlers / extension interfaces as reads at the call. R9: nested lock acquisitions follow one order. R10: no atomic Store of a value derived from an atomic Load of the same word.",
 		NotDecided: []string{
 			"atomicity across two critical sections (check-then-act split over unlock/relock)",
 			"races inside user-supplied objects (handlers, extractors, listeners, loggers, meters supplied by the user)",
@@ -406,6 +406,8 @@ func mutantsC09() []Mutant {
 		{Name: "statuscode-insert-without-recheck", File: "memmetrics/roundtrip.go", Old: "\t// Check if another goroutine has written our counter already\n\tif c, ok := m.statusCodes[statusCode]; ok {\n\t\tc.Inc(1)\n\t\treturn nil\n\t}\n\n", New: "", Expect: "C09.R7"},
 		{Name: "aes-nonce-scratch-field", File: "roundrobin/stickycookie/aes_value.go", Old: "\tnonce := make([]byte, 12)\n", New: "\tnonce := v.scratch[:]\n", More: []Edit{{"roundrobin/stickycookie/aes_value.go", "type AESValue struct {\n", "type AESValue struct {\n\tscratch [12]byte\n"}}, Expect: "C09.R1"},
 		{Name: "limiter-explicit-unlock", File: "ratelimit/tokenlimiter.go", Old: "\ttl.mutex.Lock()\n\tdefer tl.mutex.Unlock()\n\n\teffectiveRates := tl.resolveRates(req)\n", New: "\ttl.mutex.Lock()\n\n\teffectiveRates := tl.resolveRates(req)\n\ttl.mutex.Unlock()\n\ttl.mutex.Lock()\n\tdefer tl.mutex.Unlock()\n", Expect: "C09.R8"},
+		{Name: "atomic-load-store-rmw", File: "connlimit/connlimit.go", Old: "\tcl.totalConnections -= amount\n", New: "\tatomic.StoreInt64(&cl.totalConnections, atomic.LoadInt64(&cl.totalConnections)-amount)\n", More: []Edit{{"connlimit/connlimit.go", "import (\n", "import (\n\t\"sync/atomic\"\n"}}, Expect: "C09.R10"},
+		{Name: "record-holds-counters-lock", File: "memmetrics/roundtrip.go", Old: "\tm.countersLock.Lock()\n\tm.total.Inc(1)", New: "\tm.countersLock.Lock()\n\tdefer m.countersLock.Unlock()\n\tm.total.Inc(1)", More: []Edit{{"memmetrics/roundtrip.go", "\t\tm.netErrors.Inc(1)\n\t}\n\tm.countersLock.Unlock()\n", "\t\tm.netErrors.Inc(1)\n\t}\n"}}, Expect: "C09.R9"},
 	}
 }
 
